@@ -13,6 +13,10 @@ import (
 	"golang.org/x/tools/go/ssa"
 )
 
+// errflowAllowNoErrorResult: a function without an error result (found/ok style) may return its
+// failure value on the error branch.
+var errflowAllowNoErrorResult = false
+
 type errflowCfg struct {
 	rule   string
 	scope  []*ssa.Function
@@ -24,6 +28,8 @@ type errflowCfg struct {
 	valueConversion map[string]bool
 	// keyOf builds the construct part of the obligation key
 	keyOf func(fn *ssa.Function, call *ssa.Call, ordinal int) string
+	// except: obligation keys exempted, each with its one-line reason
+	except map[string]string
 }
 
 // provablyNonNilError: v (an error-typed operand of a Return executed on a path where error e is
@@ -153,7 +159,13 @@ func checkErrorBranch(fn *ssa.Function, t nilTest, eAliases map[ssa.Value]bool, 
 		last := r.Results[len(r.Results)-1]
 		if !isErrorType(last.Type()) {
 			// named results / functions without error result: cannot carry the error
+			if errflowAllowNoErrorResult {
+				continue
+			}
 			return false, "error branch returns from a function without error result"
+		}
+		if cellKnownNonNil(fn, last, r) {
+			continue
 		}
 		if good, w := provablyNonNilError(fn, last, eAliases); !good {
 			return false, "on the branch where the error is non-nil the function " + w
@@ -253,6 +265,10 @@ func runErrflow(c *Ctx, cfg errflowCfg) {
 				key := FuncName(fn) + ":" + short + "#" + fmt.Sprint(ord[short])
 				if cfg.keyOf != nil {
 					key = cfg.keyOf(fn, call, ord[short])
+				}
+				if why, ok := cfg.except[key]; ok {
+					c.OK(cfg.rule, key, c.Pos(call.Pos()), "exception (one named site): "+why)
+					continue
 				}
 				strict := cfg.strict != nil && cfg.strict(fn, call)
 				errs := errResults(call)
